@@ -22,21 +22,22 @@ VARIABLES pts, nodeOf, free, next, count,   \* Shard.tla
           lim,                              \* size limit of this history
           l, S, U, fault,
           mem,                              \* 1 = in-memory backend
+          saved,                            \* shard state saved by Fork (what-if trials on a copy)
           kf                                \* known-finding signatures matched so far
 
 Sh == INSTANCE Shard
 
-vars == <<pts, nodeOf, free, next, count, lim, l, S, U, fault, mem, kf>>
+vars == <<pts, nodeOf, free, next, count, lim, l, S, U, fault, mem, saved, kf>>
 
 TraceInit ==
   /\ Sh!ShardInit
-  /\ lim = 0 /\ l = 1 /\ S = <<>> /\ U = <<>> /\ fault = FALSE /\ mem = 0 /\ kf = {}
+  /\ lim = 0 /\ l = 1 /\ S = <<>> /\ U = <<>> /\ fault = FALSE /\ mem = 0 /\ saved = <<>> /\ kf = {}
 
 E == Trace[l]
 IsEvent(name) == /\ l <= Len(Trace)
                  /\ Trace[l].ev = name
                  /\ l' = l + 1
-Env == UNCHANGED <<lim, S, U, mem>>
+Env == UNCHANGED <<lim, S, U, mem, saved>>
 AsSet(s) == {s[i] : i \in DOMAIN s}
 
 \* logged projection P = [nodes: Seq(<<id, node>>), free: Seq(node), next, count]
@@ -50,7 +51,7 @@ TReset ==
   /\ IsEvent("Reset")
   /\ pts' = <<>> /\ nodeOf' = <<>> /\ free' = {} /\ next' = 2 /\ count' = 0
   /\ S' = E.schema /\ U' = E.pool /\ lim' = E.limit /\ mem' = E.mem
-  /\ fault' = FALSE /\ UNCHANGED kf
+  /\ fault' = FALSE /\ saved' = <<>> /\ UNCHANGED kf
 
 TFault ==
   /\ IsEvent("Fault")
@@ -185,12 +186,45 @@ TGraph ==
                    /\ (n # 1 => Len(es) <= E.R)
          /\ \A n \in nodes : n <= Max2(E.max, 1)
 
+\* What-if trials (C07): the batch is tried on a copy of the database under an
+\* injected fault / kill; Fork saves the model state, Restore brings it back.
+TFork ==
+  /\ IsEvent("Fork")
+  /\ saved' = [pts |-> pts, nodeOf |-> nodeOf, free |-> free, next |-> next, count |-> count]
+  /\ UNCHANGED <<pts, nodeOf, free, next, count, fault, kf, lim, S, U, mem>>
+TRestore ==
+  /\ IsEvent("Restore")
+  /\ pts' = saved.pts /\ nodeOf' = saved.nodeOf /\ free' = saved.free /\ next' = saved.next /\ count' = saved.count
+  /\ fault' = FALSE
+  /\ UNCHANGED <<saved, kf, lim, S, U, mem>>
+
+\* the process was killed while the batch ran (observed after reopening the
+\* file): before the commit nothing of the batch may be visible, right after
+\* the commit all of it must be
+TCrash ==
+  /\ IsEvent("Crash")
+  /\ fault' = FALSE /\ Env /\ UNCHANGED kf
+  /\ PNodesFunctional(E.P)
+  /\ IF E.applied = 0
+     THEN Unchanged(E.P)
+     ELSE CASE E.kind = "insert" ->
+                 IF Sh!InsertValid(E.pts)
+                 THEN Sh!InsertBatch(E.pts, PN(E.P), PF(E.P), E.P.next) /\ count' = E.P.count
+                 ELSE Unchanged(E.P)
+            [] E.kind = "update" ->
+                 IF Sh!UpdOversize(pts, E.pts, lim)
+                 THEN Unchanged(E.P)
+                 ELSE /\ Sh!UpdateBatch(E.pts, lim)
+                      /\ PN(E.P) = nodeOf /\ PF(E.P) = free /\ E.P.next = next /\ E.P.count = count
+            [] E.kind = "delete" ->
+                 Sh!DeleteBatch(AsSet(E.ids), PN(E.P), PF(E.P), E.P.next) /\ count' = E.P.count
+
 \* environment steps with no effect on the abstract state (reopen, evict,
 \* switch to a cold copy): the model says nothing may change
 TQuiet == IsEvent("Quiet") /\ Obs
 
 TraceNext ==
-  \/ TReset \/ TFault \/ TInsert \/ TUpdate \/ TDelete
+  \/ TReset \/ TFault \/ TInsert \/ TUpdate \/ TDelete \/ TFork \/ TRestore \/ TCrash
   \/ TCount \/ TGet \/ TFilter \/ TFlat \/ TVamana \/ TVamanaPair \/ TText \/ TGraph \/ TQuiet
 
 TraceSpec == TraceInit /\ [][TraceNext]_vars
